@@ -10,6 +10,7 @@ CONSTANTS
   Buffered = FALSE
   Gaps = "overlap"
   DropExit = FALSE
+  FlushOnErr = TRUE
   KeepData = TRUE
   ExternalProg <- NoExternal
   Emit = FALSE
